@@ -146,7 +146,8 @@ def lib_frames(task, tier, seed):
     elif kind in ('rep', 'misc'):
         bodies = [b'', b'\x00', b'\xce', b'AMQP', refcodec.HEARTBEAT,
                   b'\x01\x00\x01\x00\x00\x00\x04', bytes(range(256)),
-                  b'a' * 4088, b'x' * 131064]
+                  b'a' * 4088, b'x' * 131064, b'x' * 131065,
+                  b'y' * 131073, b'z' * 300000]
         if kind == 'misc':
             for b in bodies:
                 for ch in A.CHANNEL:
